@@ -61,6 +61,9 @@ type gen struct {
 	// near-matching credentials. With edge == 0 no extra random numbers are drawn (the main batch stays as it was).
 	edge    float64
 	edgeNow float64 // per definition: how often a filter loses its `type`
+	// requirement-tree mode (third batch, own random stream, gennested_test.go): definitions are built around nested
+	// submission requirements over groups of several descriptors, wallets are steered per group.
+	nest bool
 }
 
 // typeless returns the filter option with the `type` keyword removed. The values meant (not) to satisfy stay those of
@@ -514,6 +517,9 @@ func (g *gen) descriptor(i int) (*descSpec, map[string]any) {
 		fields = append(fields, f)
 	}
 	n := g.weighted(1, 4, 4, 3, 1)
+	if g.nest { // many descriptors have to be satisfied at once: fewer fields each
+		n = g.weighted(5, 4, 1)
+	}
 	for k := 0; k < n; k++ {
 		fs, m := g.field(d.id, k)
 		d.fields = append(d.fields, fs)
@@ -597,6 +603,9 @@ func collectGroups(m map[string]any, into map[string]bool) {
 }
 
 func (g *gen) definition() *defSpec {
+	if g.nest {
+		return g.nestedDefinition()
+	}
 	g.n++
 	ds := &defSpec{}
 	if g.edge > 0 {
@@ -987,6 +996,9 @@ type wallet struct {
 }
 
 func (g *gen) wallet(ds *defSpec) *wallet {
+	if g.nest {
+		return g.nestedWallet(ds)
+	}
 	w := &wallet{}
 	var matchN, nearN, decoyN int
 	if g.p(0.03) {
